@@ -49,6 +49,8 @@ var requests = []request{
 	{"GET", "/w/x/y"},   // trailing *
 	{"GET", "/b/1/2/3"}, // matches only once the late route is registered
 	{"GET", "/u/boom/1"}, // handler panics (recovered by the relay)
+	{"GET", "/u/9/"},     // trailing slash: the second parameter is the empty string
+	{"GET", "/w/"},       // trailing slash on the * route: empty rest
 }
 
 // one observation made inside a handler
